@@ -173,7 +173,7 @@ impl Check for C15 {
         "fault_enumeration"
     }
     fn rule(&self) -> String {
-        "Generated invocations of the real binaries with 1..6 valid inputs (JSON/YAML/MessagePack/TOML files of a few bytes, a few hundred bytes, around the 8 KiB stdout buffer, or 1-3 MB) and ONE failing input planted at a drawn position among them (every position occurs), of every failure kind: missing file, directory, syntax error at depth 20, undetectable content, a value the target refuses, second use of standard input; for TOML targets any second input is the failure; all targets; stdout a pipe or a file. Oracle (reference CLI model + in-process library): exit 1 and stdout STARTS WITH the concatenation of the library's translations of all inputs before the failing one (and carries nothing the library never produced); without a failing input exit 0 and exactly the full concatenation. One evaluation = one process run; non-trivial = a failure after at least one successfully translated input; distinct by hash of the invocation.".into()
+        "Generated invocations of the real binaries with 1..6 valid inputs (JSON/YAML/MessagePack/TOML files of a few bytes, a few hundred bytes, around the 8 KiB stdout buffer, or 1-3 MB) and ONE failing input planted at a drawn position among them (every position occurs), of every failure kind: missing file, directory, syntax error at depth 20, undetectable content, a value the target refuses, second use of standard input; for TOML targets any second input is the failure; all targets; stdout a pipe or a file. Oracle (reference CLI model + in-process library): exit 1 and stdout STARTS WITH the concatenation of the library's translations of all inputs before the failing one (and carries nothing the library never produced); without a failing input exit 0 and exactly the full concatenation. Unit 'full_device': the same kinds of input lists with stdout on /dev/full must never exit 0 (a successful exit promises that every byte was written). One evaluation = one process run; non-trivial = a failure after at least one successfully translated input; distinct by hash of the invocation.".into()
     }
     fn assumptions(&self) -> Vec<String> {
         vec!["the reference translations come from in-process library calls".into()]
@@ -182,15 +182,49 @@ impl Check for C15 {
         true
     }
     fn units(&self, tier: Tier) -> Vec<Unit> {
-        vec![Unit::gen("lists", 16, tier.pick(500, 5000))]
+        vec![Unit::gen("lists", 16, tier.pick(500, 5000)), Unit::enumerate("full_device", 2)]
     }
     fn required_classes(&self, _tier: Tier) -> Vec<&'static str> {
-        vec!["outcome:ok", "outcome:failed", "inputs_before_failure:0", "inputs_before_failure:1", "inputs_before_failure:3", "earlier_output_below_stdout_buffer", "earlier_output_above_stdout_buffer", "stdout:Pipe", "stdout:File"]
+        vec!["outcome:ok", "outcome:failed", "inputs_before_failure:0", "inputs_before_failure:1", "inputs_before_failure:3", "earlier_output_below_stdout_buffer", "earlier_output_above_stdout_buffer", "stdout:Pipe", "stdout:File", "full_device"]
     }
-    fn run_unit(&self, unit: &Unit, _shard: u32, seed: u64, _tier: Tier, rec: &mut Recorder) {
+    fn run_unit(&self, unit: &Unit, shard: u32, seed: u64, _tier: Tier, rec: &mut Recorder) {
+        if unit.name == "full_device" {
+            // "at a successful exit every byte of output has been written": with
+            // stdout on a full device nothing can be written, so no run that
+            // produces output may exit 0 - whether the output is below the stdout
+            // buffer (only the final flush meets the error) or above it
+            for to in FORMATS {
+                for n_inputs in [1usize, 2, 4] {
+                    for size in [0u8, 1, 2, 3] {
+                        let sc = crate::cli::Scratch::new("c15f");
+                        let mut args: Vec<std::ffi::OsString> = vec![format!("-t{}", to.name()).into()];
+                        let n = if to == Fmt::Toml { 1 } else { n_inputs };
+                        for i in 0..n {
+                            let fmt = [Fmt::Json, Fmt::Yaml, Fmt::Msgpack][i % 3];
+                            let name = format!("in{}.{}", i, ext(fmt));
+                            sc.file(&name, &good_text(fmt, &Val::Bool(true), size, i));
+                            args.push(name.into());
+                        }
+                        let bin = if shard == 0 { Bin::Debug } else { Bin::Release };
+                        let res = crate::cli::run_xt(bin, &args, &sc.dir, crate::cli::StdinSpec::Null, crate::cli::StdoutSpec::DevFull, vec![]);
+                        let cj = json!({"unit": "full_device", "to": to.name(), "inputs": n, "size": size, "bin": bin.name()});
+                        if res.code == Some(0) {
+                            rec.fail(format!("stdout on a full device: xt {:?} exited 0 although none of its output could be written", args), cj);
+                            return;
+                        }
+                        rec.count(Some(hash_of(&cj.to_string())));
+                        rec.class("full_device");
+                    }
+                }
+            }
+            return;
+        }
         run_prop(rec, seed, unit.cases, case_strategy(), |c| build(c).to_json("lists"), |c, r| check_invocation(&build(c), r));
     }
     fn replay(&self, case: &J) -> Result<(), String> {
+        if case["unit"].as_str() == Some("full_device") {
+            return Err("re-run ./check C15 quick (the full_device unit is a fixed enumeration)".into());
+        }
         check_invocation(&Invocation::from_json(case).ok_or("bad invocation")?, &mut Recorder::default())
     }
 }
